@@ -10,7 +10,7 @@ PROP = dict(
                     "in-range points and cut/trim fractions against the long double crossing; after joining again.  Exploration, not proof."),
         level_note=("trusts the partition oracle in harness/c18_oracle.c (long double crossing, tolerance 2^-16(1+1e-9)), gcc ASan+UBSan; "
                     "fractions are not asserted where the differences bound-v0 / v1-v0 overflow double; non-finite data: progress and totals only"),
-        legs=[dict(name="c18_linepart", src=["c18_linepart.c", "c18_oracle.c"], libs=["mptplot", "mptcore"], batch=512,
+        legs=[dict(name="c18_linepart", memcheck=1500, src=["c18_linepart.c", "c18_oracle.c"], libs=["mptplot", "mptcore"], batch=512,
                    floors={"mpt_linepart_linear": 1000000, "mpt_linepart_join": 500000, "join:accepted": 100000, "join:refused": 100000,
                            "monitor:cut-fraction": 200000, "monitor:trim-fraction": 200000, "monitor:coverage-points": 1000000,
                            "monitor:crossings-complete": 200000, "state:part-at-limit-65535": 1000, "run:cases": 1000,
